@@ -10,6 +10,12 @@ import vlib
 from vlib import log
 
 
+def rv_load():
+    """the rv-load binary (VERIF_RVLOAD_DIR: a privately built harness, used to try mutants without touching /repo)"""
+    d = os.environ.get("VERIF_RVLOAD_DIR")
+    return os.path.join(d, "rv-load") if d else vlib.rv("rv-load")
+
+
 def s(cps):
     return "".join(chr(c) for c in cps)
 
@@ -260,7 +266,7 @@ def run_load(mode, jobs, shards=8, tag="ld", timeout_ms=None, timeout=7200):
         inp = vlib.workfile("%s-in-%d.ndjson" % (tag, i))
         outp = vlib.workfile("%s-out-%d.ndjson" % (tag, i))
         vlib.write_ndjson(inp, chunks[i])
-        cmd = [vlib.rv("rv-load"), mode, "--in", inp, "--out", outp]
+        cmd = [rv_load(), mode, "--in", inp, "--out", outp]
         if timeout_ms:
             cmd += ["--timeout-ms", str(timeout_ms)]
         vlib.run_tool(cmd, timeout=timeout)
